@@ -314,38 +314,115 @@ def rule_contexts(facts):
     dis = pat.body_of(facts, "DecoderState::decode_distance")
     r.need("decode_literal and decode_distance", lit is not None and dis is not None)
     if lit is not None:
-        tm = Terms(lit)
-        found = False
-        for blk in lit.calls():
-            if (flow.callee(blk.term) or "").endswith("Vec2D as std::ops::IndexMut>::index_mut") or \
-                    (blk.term.callee is not None and blk.term.callee.method == "index_mut" and
-                     pat.has_field(tm.of_operand(blk.term.args[0]), "literal_probs")):
-                t = tm.of_operand(blk.term.args[1])
-                found = True
-                r.sites += 1
-                okk = (t[0] == "Add" and pat.has_op(t, ("Shl",)) and pat.has_op(t, ("Shr",)) and pat.has_op(t, ("BitAnd",))
-                       and pat.has_field(t, "lc") and pat.has_field(t, "lp") and pat.has_const(t, 8) and
-                       pat.has_call(t, "LzBuffer::len") and pat.has_call(t, "LzBuffer::last_or"))
-                # shape: ((len & ((1 << lp) - 1)) << lc) + (prev >> (8 - lc))
-                a, bq = t[1], t[2]
-                sh = a if a[0] == "Shl" else bq
-                sr = bq if a[0] == "Shl" else a
-                okk = okk and sh[0] == "Shl" and pat.has_field(sh[2], "lc") and pat.strip(sh[1])[0] == "BitAnd" and \
-                    sr[0] == "Shr" and sr[2][0] == "Sub" and sr[2][1] == ("const", 8) and pat.has_field(sr[2][2], "lc")
-                if okk:
-                    r.ok("term", {"lit_state": flow.show(t)[:140]})
-                else:
-                    r.bad("decode_literal|lit_state", "the literal context is not ((len & (2^lp-1)) << lc) + (prev >> (8-lc)): %s"
-                          % flow.show(t)[:160], pat.where(lit, blk.idx))
-        r.need("literal table row selection", found)
-        # matched literal: ((1 + match_bit) << 8) + result ; loop bound 0x100 ; final result - 0x100
-        mt = [tm.of_operand(blk.term.msg["index"]) for blk in lit.blocks if blk.term.k == "assert" and
-              blk.term.msg["kind"] == "BoundsCheck"]
-        if any(t[0] == "Add" and pat.has_const(t, 8) and pat.has_const(t, 1) and pat.has_op(t, ("Shl",)) for t in mt):
-            r.ok("term", {"matched literal index": "((1 + match_bit) << 8) + symbol"})
+        # every step of literal decoding is a small expression: each is looked up among the function's statements and tests
+        # and decided by evaluation (the loop-carried values - symbol so far, shifted match byte - are free variables)
+        from engine.flow import PosTerms
+        ptl = PosTerms(lit)
+        terms = []
+        for blk in lit.blocks:
+            if blk.cleanup:
+                continue
+            for i, s_ in enumerate(blk.stmts):
+                if s_.k == "assign" and s_.rv.k in ("binop", "cast"):
+                    terms.append((blk.idx, ptl.at(blk.idx, i).of_rvalue(s_.rv, blk.idx)))
+            if blk.term.k == "switch":
+                terms.append((blk.idx, ptl.at(blk.idx, None).of_operand(blk.term.discr)))
+            if blk.term.k == "assert" and blk.term.msg.get("kind") == "BoundsCheck":
+                terms.append((blk.idx, ptl.at(blk.idx, None).of_operand(blk.term.msg["index"])))
+
+        def ev(t, **kw):
+            def leaf(q):
+                if q[0] == "field" and q[1] in ("lc", "lp", "state") and q[1] in kw:
+                    return kw[q[1]]
+                if q[0] == "call" and q[1].endswith("LzBuffer::len") and "len" in kw:
+                    return kw["len"]
+                if q[0] == "call" and q[1].endswith("LzBuffer::last_or") and "prev" in kw:
+                    return kw["prev"]
+                if q[0] == "phi":
+                    if pat.has_call(q, "last_n") and "mb" in kw:
+                        return kw["mb"]
+                    if pat.has_call(q, "decode_bit") and "sym" in kw:
+                        return kw["sym"]
+                    if not pat.has_call(q, "last_n") and not pat.has_call(q, "decode_bit") and "sym" in kw:
+                        return kw["sym"]
+                if q[0] in ("ok", "try") and pat.has_call(q, "last_n") and not pat.has_call(q, "decode_bit") and "mb" in kw:
+                    return kw["mb"]
+                if q[0] in ("ok", "try") and pat.has_call(q, "decode_bit") and "bit" in kw:
+                    return kw["bit"]
+                raise pat.NotEvaluable(q)
+            return pat.eval_cmp(t, leaf) if pat.cmp_sides(t) else pat.eval_term(t, leaf)
+
+        def exists(desc, key, pred):
+            r.sites += 1
+            for bb, t in terms:
+                try:
+                    if pred(t):
+                        r.ok("evaluation", {"decode_literal": desc})
+                        return True
+                except (pat.NotEvaluable, pat.Overflow, KeyError, TypeError, IndexError):
+                    continue
+            r.bad("decode_literal|%s" % key, "decode_literal has no step computing %s" % desc, pat.where(lit))
+            return False
+        grid = [(lc, lp, ln, pv) for lc in (0, 3, 8) for lp in (0, 2, 4) for ln in (0, 1, 5, 0x1234) for pv in (0, 0x5A, 0xFF)]
+        exists("lit_state = ((len & (2^lp - 1)) << lc) + (prev >> (8 - lc))", "lit_state",
+               lambda t: t[0] == "Add" and pat.has_field(t, "lp") and all(
+                   ev(t, lc=lc, lp=lp, len=ln, prev=pv) == ((ln & ((1 << lp) - 1)) << lc) + (pv >> (8 - lc)) for lc, lp, ln, pv in grid))
+        exists("matched mode iff state >= 7", "matched-mode",
+               lambda t: pat.has_field(t, "state") and pat.cmp_sides(t) and
+               ([bool(ev(t, state=s_)) for s_ in range(12)] in ([s_ >= 7 for s_ in range(12)], [s_ < 7 for s_ in range(12)])))
+        exists("match_bit = (match_byte >> 7) & 1", "match-bit",
+               lambda t: t[0] == "BitAnd" and pat.has_call(t, "last_n") and all(ev(t, mb=mb) == (mb >> 7) & 1 for mb in (0, 0x7F, 0x80, 0xFF, 0x155, 0x1AA)))
+        exists("match_byte <<= 1", "match-shift",
+               lambda t: t[0] == "Shl" and pat.has_call(t, "last_n") and not pat.has_call(t, "decode_bit") and
+               all(ev(t, mb=mb) == mb << 1 for mb in (1, 0x80, 0xFF, 0x155)))
+        exists("matched index = ((1 + match_bit) << 8) + symbol", "matched-index",
+               lambda t: t[0] == "Add" and pat.has_call(t, "last_n") and all(
+                   ev(t, mb=mb, sym=sy) == ((1 + ((mb >> 7) & 1)) << 8) + sy for mb in (0, 0x80, 0x17F) for sy in (1, 2, 0xFF)))
+        exists("symbol = (symbol << 1) ^ bit", "symbol-update",
+               lambda t: t[0] in ("BitXor", "BitOr", "Add") and pat.has_call(t, "decode_bit") and
+               all(ev(t, sym=sy, bit=b_, mb=0) == ((sy << 1) ^ b_) for sy in (1, 2, 0x55, 0xFF) for b_ in (0, 1)))
+        # the matched loop is left exactly when the decoded bit differs from the match bit
+        r.sites += 1
+        cl_ = cfg(lit)
+        okx = None
+        for blk in lit.blocks:
+            if blk.cleanup or blk.term.k != "switch" or len(blk.term.targets) != 1:
+                continue
+            t = ptl.at(blk.idx, None).of_operand(blk.term.discr)
+            if not (pat.cmp_sides(t) and pat.has_call(t, "last_n") and pat.has_call(t, "decode_bit")):
+                continue
+            heads = [h for h, bl, _ in cl_.loops() if blk.idx in bl]
+            if not heads:
+                continue
+            z, nz = blk.term.targets[0][1], blk.term.otherwise
+            try:
+                okx = True
+                for mb in (0, 0x80):
+                    for b_ in (0, 1):
+                        edge = nz if ev(t, mb=mb, bit=b_, sym=1) else z
+                        leaves = not any(h in cl_.reachable_from(edge) for h in heads)
+                        if leaves != (((mb >> 7) & 1) != b_):
+                            okx = False
+            except (pat.NotEvaluable, pat.Overflow):
+                okx = None
+        if okx:
+            r.ok("evaluation", {"decode_literal": "the matched loop is left exactly when match_bit != bit"})
         else:
-            r.bad("decode_literal|matched-index", "the matched-literal probability index is not ((1+match_bit)<<8)+symbol",
-                  pat.where(lit))
+            r.bad("decode_literal|matched-exit", "matched-literal mode is not left exactly when the decoded bit differs from the match bit", pat.where(lit),
+                  "violated" if okx is False else "unverifiable")
+        exists("loops run while symbol < 0x100", "loop-bound",
+               lambda t: pat.cmp_sides(t) and pat.has_call(t, "decode_bit") and not pat.has_call(t, "last_n") and
+               [bool(ev(t, sym=sy)) for sy in (1, 0xFF, 0x100, 0x1FF)] in ([True, True, False, False], [False, False, True, True]))
+        exists("byte = symbol - 0x100", "result",
+               lambda t: t[0] in ("Sub", "cast") and pat.has_const(t, 0x100) and all(ev(t, sym=sy) == (sy - 0x100) & 0xFF for sy in (0x100, 0x155, 0x1FF)))
+        tm = Terms(lit)
+        ln_ = [blk for blk in lit.calls() if blk.term.callee is not None and blk.term.callee.method == "last_n"]
+        r.sites += 1
+        if ln_ and all(pat.eval_term(tm.of_operand(x.term.args[1]), lambda q: 41 if (q[0] == "index" and pat.has_field(q, "rep")) else (_ for _ in ()).throw(pat.NotEvaluable(q))) == 42
+                       for x in ln_):
+            r.ok("evaluation", {"match byte": "last_n(rep[0] + 1)"})
+        else:
+            r.bad("decode_literal|match-byte", "the match byte is not read at distance rep[0] + 1", pat.where(lit))
     if dis is not None:
         # the distance as a function of the decoded slot, evaluated for all 64 slots with symbolic values for the three
         # sub-decodings (reverse tree X, direct bits G, align bits A)
